@@ -549,7 +549,7 @@ def system_task(ctx, task):
 
 # ---- histories: reads of the derived attribute interleaved with edits through the python API ------------------
 
-HIST_LEN = {'quick': 5, 'thorough': 6}
+HIST_LEN = {'quick': 4, 'thorough': 6}
 HIST_MAIN = [('selfrom', 'any', 'a', 'A', B('==', ('field', ('selected',), 'Name'), ('str', 'i0')), True), RET(('field', V('a'), 'D'))]
 HIST_ALPHABET = [['rp', 0], ['ro'], ['new', 1], ['set', 0, 0], ['set', 0, 2], ['set', 1, 3], ['del', 1]]
 
